@@ -56,3 +56,41 @@ Lemma seek_prev_sound : forall s probe k v,
 Proof.
   intros s probe k v H. split; [exact (Proofs.Store.seek_prev_in s probe k v H) | exact (Proofs.Store.seek_prev_le s probe k v H)].
 Qed.
+
+(* ------------------------------------------------------------------------------------------
+   NOTES for whoever continues C02_v2_equals_v1 (not proved).  What exists:
+   - Proofs/CtxFind.find_cache_free : with any closest_sound cache, LookupV2.find computes what
+     [find_pure] (no cache) computes.  So the target can be stated over find_pure.
+   - Proofs/Reverse.reverse_zone_name_pack : reverse_zone_name (pack n) = Val (rpack n);
+     rev_into_key_buffer for the exact reads; for_each_rr_v2_val.
+   - Proofs/Ctx.get_v2_transparent, seek_prev_present; sorted_uniq above.
+   - v1 side: Proofs/ZoneCut.is_auth_walk, Proofs/AnswerItems.find_ans_state give closed forms of
+     the v1 loops over store_v1 recs; the v2 loops should be shown equal to the same closed forms.
+   Suggested statements.
+   (0) store_v2 recs := store_of (rows_of_v2 recs) sorted by key (define sort or state over any
+       permutation with sorted_keys); get (store_v2 recs) (key_v2 r) = rows of the records with that
+       key_v2 (as Proofs/Compile.get_store_of, plus injectivity of rpack: rpack a = rpack b -> a = b
+       for wf names, from pack_inj and rev_involutive).
+   (1) seek_skip_sound.  For wf n, 1 <= j <= length n, m := skipn (length n - j) n (the ancestor
+       with j labels), probe := marker ++ rpack m ++ L:
+         seek_prev (store_v2 recs) probe = Some (k, v) -> is_prefix marker k = true ->
+         k = marker ++ rpack m' ++ L'  for a record owner m' and tag L', and
+         for every ancestor a of n with  common_labels (rev n) (rev m') < length a <= j :
+           no record has owner a   (neither tagged L nor untagged, nor any other tag).
+       Argument: rpack a ++ X is a prefix-extension of rpack of the common part followed by a label
+       byte sequence that sorts strictly between k and probe (bcmp_app in BytesOrder, the 0
+       terminator sorts first), contradicting maximality of k (seek_prev_le / a "greatest" lemma:
+       forall k' in store, bleb k' probe -> bleb k' k, still to be proved from seek_prev_from).
+   (2) find_common_longest_prefix (rpack n) (rpack m') = nlen (body (common reversed labels))
+       and get_length_without_last_label (rpack n) q = q - 1 - nlen (last label) on label
+       boundaries (both by induction on the label list; Reverse.body is the right vocabulary).
+   (3) simulation: one iteration of find_pure at qlen = boundary of ancestor a_j either reads
+       exactly get (key a_j L) and get (key a_j 00) (when k has the same name) or proves both empty
+       (by (1)), then jumps to an ancestor a_i, i < j, such that all a_l, i < l < j have no rows
+       for L / 00; the v1 loop visits those a_l and finds nothing (fa_step / auth_step with empty
+       lists).  The pre-iteration check of FindAnswer covers the labels skipped: pre_fa_loop over
+       rpack n from boundary i to boundary j = forallb wildsafe of labels i+1..j.
+   (4) the located-override probe: same_name test in find_loop = (owner of k = a_j); if k has the
+       same name with another tag L' <= L the untagged key sorts before it, so the second
+       TryForEach is an exact hit iff (a_j, 00) has rows.
+   ------------------------------------------------------------------------------------------ *)
